@@ -170,6 +170,9 @@ def gen_cases(ctx, avoid):
         expect = None if err is None else ("reject" if err else "accept")
         cases.append(Case(text, expect, "trigger", rule="trigger:" + what if err else None, where=what, template=sexp))
     cases.append(Case("fn f() { }\n", "accept", "nomain", nomain=True))
+    # assorted snippets, well- and ill-typed: oracle "no panic, table total", tie with the model
+    for text in faults.soup_cases(rng, n_table * 2):
+        cases.append(Case(text, None, "soup"))
     # typed programs and their tree-level mutants
     for _ in range(n_typed):
         tree, fs = faults.typed_program(rng, avoid=avoid, max_depth=rng.choice([2, 3, 3, 4]))
